@@ -23,6 +23,7 @@ type verifProviderScn struct {
 	Prefix string            `json:"prefix"`
 	Types  map[string]string `json:"types"`
 	H      []string          `json:"H"`
+	Refuse []string          `json:"refuse"` // healthy when the request arrives, but their listener is closed
 }
 
 type verifProfileYAML struct {
@@ -112,7 +113,7 @@ func TestVerif_Provider(t *testing.T) {
 		}
 		stk, err := verifBoot("sherpa", "round-robin", "auto", opts, nil)
 		if err != nil {
-			b.Emit("Reset", "scn", sn, "booted", false, "err", err.Error(), "prefix", sc.Prefix, "allowed", []string{}, "types", sc.Types, "H", []string{})
+			b.Emit("Reset", "scn", sn, "booted", false, "err", err.Error(), "prefix", sc.Prefix, "allowed", []string{}, "types", sc.Types, "H", []string{}, "refuse", []string{})
 			return
 		}
 		defer stk.Close()
@@ -153,7 +154,12 @@ func TestVerif_Provider(t *testing.T) {
 			}
 		}
 		emit("Reset", "scn", sn, "booted", true, "prefix", sc.Prefix, "allowed", verifAllowedTypes(sc.Prefix), "types", sc.Types,
-			"H", hObs, "known", known)
+			"H", hObs, "known", known, "refuse", append([]string{}, sc.Refuse...))
+		for _, be := range stk.backends {
+			if verifHas(sc.Refuse, be.Name) {
+				be.SetDown(true)
+			}
+		}
 		emit("ClientSend")
 		// no model named: this check is about endpoint KIND, model routing is C09's business
 		body := fmt.Sprintf(`{"messages":[{"role":"user","content":"p%d"}]}`, sn)
@@ -164,6 +170,11 @@ func TestVerif_Provider(t *testing.T) {
 			st = 0
 		}
 		emit("ClientDone", "st", st, "xb", res.Header.Get("X-Backend"))
+		for _, be := range stk.backends {
+			if verifHas(sc.Refuse, be.Name) {
+				be.SetDown(false)
+			}
+		}
 		// model listing under the prefix (OpenAI format)
 		lr := zzverif.Do(stk.addr, &zzverif.Req{Method: "GET", Target: "/olla/" + sc.Prefix + "/v1/models", Timeout: 10 * time.Second})
 		ids := []string{}
